@@ -145,7 +145,9 @@ PROPS = {
                    f"{CSM}._blocking_status:BlockingStatus.block", f"{CSM}._blocking_status:BlockingStatus.unblock",
                    f"{CSM}._blocking_status:BlockingStatus.is_blocked",
                    f"{CSM}._component_status:ComponentPoolStatus.get_working_components",
-                   "frequenz.sdk.microgrid._power_distributing._component_pool_status_tracker:ComponentPoolStatusTracker._update_status"],
+                   "frequenz.sdk.microgrid._power_distributing._component_pool_status_tracker:ComponentPoolStatusTracker._update_status",
+                   "frequenz.sdk.microgrid._power_distributing._component_pool_status_tracker:ComponentPoolStatusTracker."
+                   "_make_merged_status_receiver"],
         lemmas=[],
         bounded=[],
         level="proof",
